@@ -18,7 +18,9 @@ Every message-level step is atomic (baseapp runs a message on a cached store), a
 (processAttestation): a rejected step returns the input state.  Inside a step the Go statement order is
 kept as an `if`-chain, so each error branch of the code is a branch of the model.
 
-Addresses, denominations and sale contracts are naturals; an address STRING (`AddrStr`) additionally records
+Addresses, denominations, bridge chains and sale-contract address STRINGS are naturals (a contract string is
+compared byte for byte by the code, so distinct strings are distinct naturals; `0` stands for the EMPTY string,
+which `MsgLightNodeSaleClaim.ValidateBasic` does not refuse); an address STRING (`AddrStr`) additionally records
 whether it is the upper-case bech32 spelling, because the licence and client stores are keyed by the string
 while accounts are looked up by the decoded bytes; amounts are unbounded `Nat`/`Int` with the
 `sdkmath.Int` 256-bit panic of the sale path made explicit; times are Unix seconds.  The end of the vesting
@@ -29,6 +31,11 @@ namespace Paloma.LightNode
 
 abbrev Addr := Nat
 abbrev Denom := Nat
+/-- a chain reference id -/
+abbrev Chain := Nat
+/-- a smart-contract address STRING as carried by a claim / stored by governance; `emptyStr` is `""` -/
+abbrev CStr := Nat
+def emptyStr : CStr := 0
 
 /-- the staking denomination (`ugrain`), used by the sale path -/
 def bondDenom : Denom := 0
@@ -78,8 +85,9 @@ structure State where
   feegranter : Option Addr
   /-- `none`: never set; `some []`: set to the empty list -/
   funders : Option (List Addr)
-  /-- authorised sale contract of the bridge chain -/
-  contract : Option Nat
+  /-- the `LightNodeSaleContracts` store: authorised sale-contract address string per bridge chain
+  (`none`: no record under that chain reference id) -/
+  contracts : Chain → Option CStr
   /-- fee allowances `(granter, grantee)` -/
   grants : List (Addr × Addr)
   /-- registered light-node clients (activated or legacy), keyed by address string -/
@@ -87,7 +95,7 @@ structure State where
 
 def State.init : State :=
   { bal := fun _ _ => 0, escrow := fun _ => 0, gifts := fun _ => 0, lics := [], acct := fun _ => .none,
-    nacc := 0, feegranter := none, funders := none, contract := none, grants := [], clients := [] }
+    nacc := 0, feegranter := none, funders := none, contracts := fun _ => none, grants := [], clients := [] }
 
 /-! ### small helpers -/
 
@@ -184,6 +192,13 @@ def pickFunder (s : State) (amt : Int) : List Addr → Option Addr
     | some g => some g
     | none => if amt ≤ (s.bal f bondDenom : Int) then some f else none
 
+/-- `SetAllLighNodeSaleContracts`: every existing record is deleted, then the proposal's records are saved in
+order under their chain reference id — a later record for the same chain overwrites an earlier one -/
+def contractTable : List (Chain × CStr) → Chain → Option CStr
+  | [], _ => none
+  | (ch, c) :: rest, x =>
+    if (contractTable rest x).isSome then contractTable rest x else if ch = x then some c else none
+
 /-! ### operations -/
 
 /-- `MsgAddLightNodeClientLicense` signed by `signer` with `Metadata.Creator = creator` -/
@@ -194,10 +209,12 @@ def create (s : State) (signer creator : Addr) (client : Option AddrStr) (amt : 
   | none => (s, .rejected)
   | some s' => (s', .ok)
 
-/-- an attested `MsgLightNodeSaleClaim` (amount in GRAIN, claimed contract) handled by `processAttestation` -/
-def sale (s : State) (client : Option AddrStr) (grains : Int) (contract now : Nat) : State × Res :=
-  if s.contract = none then (s, .rejected) else                 -- no sale contract for the chain
-  if s.contract ≠ some contract then (s, .rejected) else        -- wrong smart contract address
+/-- an attested `MsgLightNodeSaleClaim` of bridge chain `chain` (amount in GRAIN, claimed contract address
+string — possibly the empty one) handled by `processAttestation` -/
+def sale (s : State) (chain : Chain) (client : Option AddrStr) (grains : Int) (contract : CStr) (now : Nat) :
+    State × Res :=
+  if s.contracts chain = none then (s, .rejected) else          -- `err != nil || contract == nil`: no record for the chain
+  if s.contracts chain ≠ some contract then (s, .rejected) else -- wrong smart contract address (string comparison)
   if grains * (grain : Int) ≥ (maxInt : Int) ∨ grains * (grain : Int) ≤ -(maxInt : Int) then (s, .rejected) else  -- Int.Mul panics
   if grains < 0 then (s, .rejected) else                        -- sdk.NewCoin panics on a negative amount
   match s.feegranter with
@@ -279,7 +296,7 @@ def fund (s : State) (a : Addr) (d : Denom) (amt : Nat) : State × Res :=
 
 inductive Op where
   | create (signer creator : Addr) (client : Option AddrStr) (amt : Int) (d : Denom) (months now : Nat)
-  | sale (client : Option AddrStr) (grains : Int) (contract now : Nat)
+  | sale (chain : Chain) (client : Option AddrStr) (grains : Int) (contract : CStr) (now : Nat)
   | activate (signer : Addr) (creator : AddrStr) (stop now : Nat)
   | auth (signer : Addr) (creator : AddrStr)
   | legacy (signer creator : Addr)
@@ -289,12 +306,12 @@ inductive Op where
   | fund (a : Addr) (d : Denom) (amt : Nat)
   | setFeegranter (a : Addr)
   | setFunders (l : List Addr)
-  | setContract (c : Option Nat)
+  | setContracts (l : List (Chain × CStr))
 deriving Repr
 
 def step (s : State) : Op → State × Res
   | .create sg cr cl amt d m now => create s sg cr cl amt d m now
-  | .sale cl g c now => sale s cl g c now
+  | .sale ch cl g c now => sale s ch cl g c now
   | .activate sg cr stop now => activate s sg cr stop now
   | .auth sg cr => auth s sg cr
   | .legacy sg cr => legacy s sg cr
@@ -304,7 +321,7 @@ def step (s : State) : Op → State × Res
   | .fund a d amt => fund s a d amt
   | .setFeegranter a => ({ s with feegranter := some a }, .ok)
   | .setFunders l => ({ s with funders := some l }, .ok)
-  | .setContract c => ({ s with contract := c }, .ok)
+  | .setContracts l => ({ s with contracts := contractTable l }, .ok)
 
 def run (s : State) : List Op → State
   | [] => s
